@@ -4,6 +4,7 @@ Twin deriving enums: E (owned, infallible), Ef (owned, fallible), Er (by-referen
 PRE_EXTRA = r'''
 pub fn tg2<T: Leaf>(i: usize, j: usize, v: T) -> V { mk(&format!("t{}_{}({})", i, j, v.sh())) }
 pub fn gh2(i: usize, j: usize) -> V { mk(&format!("g{}_{}()", i, j)) }
+pub fn vgh(i: usize, k: usize) -> V { mk(&format!("vg{}_{}()", i, k)) }
 pub fn obs_e(case: usize, k: &str, fall: bool, vin: usize, res: &str, variant: &str, leaves: Vec<(String, V)>) {
   let o: Vec<String> = leaves.iter().map(|(l,v)| format!("{{\"leaf\":{},\"val\":{}}}", js(l), js(&show(*v)))).collect();
   println!("{{\"case\":{},\"k\":\"{}\",\"f\":{},\"vin\":{},\"res\":\"{}\",\"variant\":{},\"leaves\":[{}]}}", case, k, fall, vin, res, js(variant), o.join(","));
@@ -42,6 +43,12 @@ def cf(v, j):
     if cform(v) == "named":
         return f"r{target(v, j)}" if (v["fs"][j - 1] in REN or v["shape"] == "tuple") else f"x{j}"
     return str(posf(v, target(v, j)))
+
+
+def vgleaves(v):
+    """counterpart-only payload fields supplied by the variant-level #[ghosts(..)]"""
+    n = len(mapped(v))
+    return [(f"y{k}" if cform(v) == "named" else str(n + k - 1)) for k in range(1, v.get("vg", 0) + 1)]
 
 
 def vdef(name, form, fields):
@@ -93,9 +100,11 @@ def program(ci, c):
                 else:
                     a = f"#[ghost({{gh2({i},{j})}})]"
                 fa.append(a)
-            va = {"none": "", "ren": f"#[map(RV{i})]", "ghostd": f"#[ghost({{DI::Gd({i})}})]", "ghost": "#[ghost]", "hint_tuple": "#[type_hint(as ())]",
+            va = {"none": "", "ren": f"#[map(RV{i})]", "vexpr": f"#[into(RV{i}, {{DI::Gd({500 + i})}})] #[from(RV{i}, {{Self::V{i}}})]", "ghostd": f"#[ghost({{DI::Gd({i})}})]", "ghost": "#[ghost]", "hint_tuple": "#[type_hint(as ())]",
                   "hint_struct": "#[type_hint(as {})]", "hint_unit": "#[type_hint(as Unit)]",
                   "hint_tuple_ded": "#[type_hint(as Unit)] #[type_hint(D| as ())] #[type_hint(DI| as ())]"}[v["it"]]
+            if v.get("vg", 0):
+                va += " #[ghosts(" + ", ".join(f"{l}: {{vgh({i},{k})}}" for k, l in enumerate(vgleaves(v), 1)) + ")]"
             if v["shape"] == "unit":
                 body = f"V{i}"
             elif v["shape"] == "named":
@@ -103,20 +112,26 @@ def program(ci, c):
             else:
                 body = f"V{i}(" + " ".join(f"{a} V," for a in fa) + ")"
             out.append(f"{va} {body},")
+        # marker variants the enum-level #[ghosts(X<j>: {Self::EG<j>})] entries evaluate to (ghosts with a default for Into)
+        for j in range(1, c.get("eg", 0) + 1):
+            out.append(f"#[ghost({{DI::Gd({900 + j})}})] EG{j},")
         return out
     for i, v in enumerate(vs, 1):
         if v["it"] not in ("ghostd", "ghost"):
-            cn = f"RV{i}" if v["it"] == "ren" else f"V{i}"
-            cfs = [cf(v, j) for j in mapped(v)]
+            cn = f"RV{i}" if v["it"] in ("ren", "vexpr") else f"V{i}"
+            cfs = [cf(v, j) for j in mapped(v)] + vgleaves(v)
             dvars.append((i, cn, cform(v), sorted(cfs, key=int) if cform(v) == "tuple" else cfs))
-    Ddef = "#[derive(Clone)] pub enum D { " + " ".join(vdef(cn, form, fs) + "," for _, cn, form, fs in dvars) + " }"
+    neg = c.get("eg", 0)
+    xvars = " ".join(f"X{j}," for j in range(1, neg + 1))
+    eghosts = ("#[ghosts(" + ", ".join(f"X{j}: {{Self::EG{j}}}" for j in range(1, neg + 1)) + ")] ") if neg else ""
+    Ddef = "#[derive(Clone)] pub enum D { " + " ".join(vdef(cn, form, fs) + "," for _, cn, form, fs in dvars) + " " + xvars + " }"
     DIdef = "#[derive(Clone)] pub enum DI { " + " ".join(vdef(cn, form, fs) + "," for _, cn, form, fs in dvars) + " Gd(usize), Dc, }"
     dfl = " | _ => DI::Dc" if c["dflt"] else ""
     dflf = " | _ => Ok(DI::Dc)" if c["dflt"] else ""
     ev, evr = " ".join(variants(False)), " ".join(variants(True))
-    E = f"#[derive(Clone, o2o)] #[from_owned(D)] #[owned_into(DI{dfl})] pub enum E {{ {ev} }}"
-    Ef = f"#[derive(Clone, o2o)] #[try_from_owned(D, Er)] #[owned_try_into(DI, Er{dfl})] pub enum Ef {{ {ev} }}"
-    Er_ = f"#[derive(Clone, o2o)] #[from_ref(D)] #[ref_into(DI{dfl})] pub enum Er_ {{ {evr} }}"
+    E = f"#[derive(Clone, o2o)] #[from_owned(D)] #[owned_into(DI{dfl})] {eghosts}pub enum E {{ {ev} }}"
+    Ef = f"#[derive(Clone, o2o)] #[try_from_owned(D, Er)] #[owned_try_into(DI, Er{dfl})] {eghosts}pub enum Ef {{ {ev} }}"
+    Er_ = f"#[derive(Clone, o2o)] #[from_ref(D)] #[ref_into(DI{dfl})] {eghosts}pub enum Er_ {{ {evr} }}"
 
     def dump_e(ty):
         arms = []
@@ -125,6 +140,8 @@ def program(ci, c):
             pat = vpat(ty, f"V{i}", v["shape"], fs, lambda f: "b_" + f)
             items = ", ".join('(String::from("%s"), *b_%s)' % (f, f) for f in fs)
             arms.append(f'{pat} => ("V{i}", vec![{items}]),')
+        for j in range(1, neg + 1):
+            arms.append(f'{ty}::EG{j} => ("EG{j}", vec![]),')
         return f"fn dump_{ty.lower()}(e: &{ty}) -> (&'static str, Vec<(String, V)>) {{ match e {{ {' '.join(arms)} }} }}"
 
     def dump_di():
@@ -146,6 +163,11 @@ def program(ci, c):
                 run.append(f'{{ match <{ty} as TryFrom<D>>::try_from({dl}) {{ Ok(e) => {{ let (vn, lv) = dump_{ty.lower()}(&e); obs_e({ci},"{kf}",{f},{i},"ok",vn,lv); }}, Err(_) => obs_e({ci},"{kf}",{f},{i},"err","-",vec![]) }} }}')
             else:
                 run.append(f'{{ let e = <{ty} as From<{amp}D>>::from({amp}{dl}); let (vn, lv) = dump_{ty.lower()}(&e); obs_e({ci},"{kf}",{f},{i},"ok",vn,lv); }}')
+        for j in range(1, neg + 1):
+            if fall:
+                run.append(f'{{ match <{ty} as TryFrom<D>>::try_from(D::X{j}) {{ Ok(e) => {{ let (vn, lv) = dump_{ty.lower()}(&e); obs_e({ci},"{kf}",{f},{100 + j},"ok",vn,lv); }}, Err(_) => obs_e({ci},"{kf}",{f},{100 + j},"err","-",vec![]) }} }}')
+            else:
+                run.append(f'{{ let e = <{ty} as From<{amp}D>>::from({amp}D::X{j}); let (vn, lv) = dump_{ty.lower()}(&e); obs_e({ci},"{kf}",{f},{100 + j},"ok",vn,lv); }}')
         for i, v in enumerate(vs, 1):
             fs = [ownf(v, j) for j in range(1, len(v["fs"]) + 1)]
             el = vlit(ty, f"V{i}", v["shape"], fs, lambda x: f'mk("S.{x}")')
